@@ -11,6 +11,9 @@ B2  (a) the topologies x Span settings enumerated by MC_DesignStructure (C08) an
     (a) design -> network_to_json -> (JSON text) -> network_from_json -> designed_network, 3 rounds, plus a second
         independent design of the same input, plus a reference propagation on every designed network;
     (b) SimParams.set_params(setting); snapshot; designed_network on Raman topologies; snapshot.
+    (c) the "replay" documents of MC_DesignLifecycle (the model's own line: user amplifiers with every pattern of given /
+        missing gain, delta_p, output VOA and model; ROADM equalisation flavours mixed between default and degree;
+        ROADMs restricting the amplifier models) x design mode go through the same real life cycle as (a).
     The recorded exports / result vectors / snapshots are judged by spec/Trace_Design.tla.
 B3  the same life cycle on every shipped network.
 """
@@ -106,6 +109,31 @@ def lifecycle(name, doc, eq, rounds=ROUNDS, sig_prefix='B2', feat='', no_insert=
 def _b2_one(c):
     return lifecycle(c08.case_name(c), du.render_topology(c), du.equipment_for(c['s']), feat=c17_features(c),
                      no_insert=not c['s'].get('insert', True))
+
+
+def replay_name(c):
+    """name of a replay case: the document as the model writes it"""
+    d, r = c['doc'], c['doc']['roadm']
+
+    def slot(a):
+        return ''.join(ch for ch, k in (('g', 'gain'), ('p', 'dp'), ('v', 'voa')) if a[k] != NONE) + ('m' if a['known'] else '') or '-'
+    return (f"line {d['base']} roadm={r['def']}/{r['deg']}{'/restricted' if r['restrict'] else ''} "
+            f"amp1={slot(d['amps'][0])} amp2={slot(d['amps'][1])} {'power' if c['cfg']['powerMode'] else 'gain'}-mode")
+
+
+def replay_features(c):
+    """class of a replay case for violation signatures: what the document generalises + the design mode"""
+    r = c['doc']['roadm']
+    what = f"equalisation={r['def']}+{r['deg']}" if (r['def'], r['deg']) != ('power', 'none') else \
+        'restricted-models' if r['restrict'] else 'user-amplifier-settings'
+    return f"line|{what}|{'power' if c['cfg']['powerMode'] else 'gain'}"
+
+
+def _b2_any(c):
+    if 'doc' in c:                  # a document of MC_DesignLifecycle
+        return lifecycle(replay_name(c), du.render_line(c['doc']), du.equipment_for(du.line_settings(c['cfg'])),
+                         feat=replay_features(c))
+    return _b2_one(c)
 
 
 def _history_export(job):
@@ -276,8 +304,11 @@ def run(chk):
     # ---- B1
     fam = 'docs' if tier == 'thorough' else 'docsq'
     w = min(int(os.environ.get('VERIF_TLC_WORKERS', '16')), 6)       # small state spaces: more workers only add contention
-    r = tlc.run('MC_DesignLifecycle', cfg_text=lifecycle_cfg(fam), timeout=3000, tag='c17-docs', workers=w)
+    r = tlc.run('MC_DesignLifecycle', cfg_text=lifecycle_cfg(fam, emit=True), timeout=3000, tag='c17-docs', workers=w)
     chk.add_mc(f'MC_DesignLifecycle Family={fam} MaxRounds=3', r)
+    replay = sorted({json.dumps(x, sort_keys=True): x for x in r.emitted}.values(), key=replay_name)
+    if len(replay) < 72:
+        raise Machinery(f'expected at least 72 replay documents x modes from TLC, got {len(replay)}')
     r2 = tlc.run('MC_DesignLifecycle', cfg_text=lifecycle_cfg('sims', emit=True), timeout=3000, tag='c17-sims', workers=w)
     chk.add_mc('MC_DesignLifecycle Family=sims (every SimParams setting)', r2)
     chk.exhaustive = True
@@ -331,21 +362,18 @@ def run(chk):
     du.reset_sim()
     du.equipment_base('example-data'), du.equipment_base('tests-data'), du.equipment_base('variant')        # parsed once, inherited by the workers
     traces = []
-    for c, (tr, viol) in zip(picked, du.parallel_map(_b2_one, picked)):
-        chk.case(c08.case_name(c), nontrivial=tr is not None)
+    # (c) the model's own documents join the queue behind the Raman life cycles
+    n_raman = sum(1 for c in picked if any(e['t'] == 'RamanFiber' for e in c['g']))
+    picked = picked[:n_raman] + replay + picked[n_raman:]
+    for c, (tr, viol) in zip(picked, du.parallel_map(_b2_any, picked)):
+        chk.case(replay_name(c) if 'doc' in c else c08.case_name(c), nontrivial=tr is not None)
         if viol:
             chk.violation(*viol)
         if tr is not None:
             traces.append(tr)
     chk.cov['b2_lifecycles'] = len(traces)
+    chk.cov['b2_replayed_model_documents'] = sum(1 for t in traces if t['name'].startswith('line '))
     chk.cov['t_b2_lifecycles_s'] = round(time.time() - t0, 1)
-    verdicts = judge(traces, chk, 'c17-b2')
-    for t in traces:
-        report(t, verdicts[t['name']], chk, 'B2', t['_feat'])
-        if len(chk.samples) < 1 and not verdicts[t['name']]['viol'] and 'A' in t['name']:
-            chk.sample(dict(kind='B2 life cycle of a TLC-enumerated topology judged by Trace_Design', case=t['name'],
-                            events=[e['op'] for e in t['ev']],
-                            propagation=[e['r'] for e in t['ev'] if e['op'] == 'Propagate']))
     # ---- B2 (a'): the same design in processes with different histories (another library used before)
     hist_cases = [c for c in two if c['s']['eol'] == 0 and c['s']['maxLen'] > 100000 and c['s'].get('insert', True)
                   and c['s'].get('bands', 1) == 1 and not c['s'].get('power')      # the other libraries are single band
@@ -356,27 +384,31 @@ def run(chk):
             hk.setdefault(chain_kind(c), c)
         hist_cases = list(hk.values())
     ht = history_traces(hist_cases, chk)
-    hv = judge(ht, chk, 'c17-hist')
-    for t in ht:
-        report(t, hv[t['name']], chk, 'B2', t['_feat'])
     chk.cov['b2_process_history_pairs'] = len(ht)
     # ---- B2 (a''): multiband sites designed in interpreters started with different string hash seeds
     multi = [c for c in two if c['s'].get('bands', 1) == 2 and (tier == 'thorough' or c['s']['eol'] == 0)]
     st = hash_seed_traces(multi, chk)
-    sv = judge(st, chk, 'c17-seeds')
-    for t in st:
-        report(t, sv[t['name']], chk, 'B2', t['_feat'])
     chk.cov['b2_hash_seed_cases'] = len(st)
-    chk.cov['t_b2_judged_s'] = round(time.time() - t0, 1)
+    chk.cov['t_b2_recorded_s'] = round(time.time() - t0, 1)
     # ---- B2 (b): SimParams settings around the real designed_network on Raman topologies
     sim_traces = sim_runs(sims if tier == 'thorough' else pick_sims(sims, chk.seed), chk)
-    vs = judge(sim_traces, chk, 'c17-sim')
-    for t in sim_traces:
-        report(t, vs[t['name']], chk, 'B2sim', t['_feat'])
     chk.cov['b2_simparams_settings'] = len(sim_traces)
+    chk.cov['t_sim_s'] = round(time.time() - t0, 1)
+    # ---- every B2 trace is judged by Trace_Design (quick: one TLC run for all of them - each run costs a JVM start)
+    verdicts = judge(traces + ht + st + sim_traces, chk, 'c17-b2', batch=60 if tier == 'thorough' else 300)
+    for t in traces:
+        report(t, verdicts[t['name']], chk, 'B2', t['_feat'])
+        if len(chk.samples) < 1 and not verdicts[t['name']]['viol'] and 'A' in t['name']:
+            chk.sample(dict(kind='B2 life cycle of a TLC-enumerated topology judged by Trace_Design', case=t['name'],
+                            events=[e['op'] for e in t['ev']],
+                            propagation=[e['r'] for e in t['ev'] if e['op'] == 'Propagate']))
+    for t in ht + st:
+        report(t, verdicts[t['name']], chk, 'B2', t['_feat'])
+    for t in sim_traces:
+        report(t, verdicts[t['name']], chk, 'B2sim', t['_feat'])
     chk.sample(dict(kind='B2 SimParams snapshot around designed_network on a Raman topology', name=sim_traces[-1]['name'],
                     before=sim_traces[-1]['ev'][0]['before'], after=sim_traces[-1]['ev'][0]['after']))
-    chk.cov['t_sim_s'] = round(time.time() - t0, 1)
+    chk.cov['t_b2_judged_s'] = round(time.time() - t0, 1)
     # ---- B3: shipped networks
     pairs = c08.SHIPPED_THOROUGH if tier == 'thorough' else \
         [p for p in c08.SHIPPED_QUICK if p[0].name not in ('Sweden_OpenROADMv4_example_network.json',
